@@ -1270,10 +1270,13 @@ fn run_bed(c: &Case, modelled: bool) -> Obs {
     // NV.Text.BedTyped.bed_write_typed; then NV.Text.BedRec): per-accessor view and owned
     // conversion of every line read back into one reused Record<N>
     let _ = modelled;
+    let rewritten: String;
     let obs = {
         let es = c18_bedrec::read_text(r.n, &bytes, true, 3, false);
-        let shown: Vec<String> = es.iter().filter(|e| e.res != "0").map(|e| if e.is_record() { format!("{}/{}", e.view, e.owned) } else { e.res.clone() }).collect();
-        format!("W={}|R={}", hex(line), shown.join(";"))
+        let shown: Vec<String> = es.iter().filter(|e| e.res != "0").map(|e| if e.is_record() { format!("{}/{}/{}", e.view, e.owned, e.rewrite) } else { e.res.clone() }).collect();
+        // the whole path write -> read_record -> try_from_feature_record -> write (NV.Text.BedRewrite.bed_rewrite)
+        rewritten = es.first().map(|e| if e.is_record() { e.rewrite.clone() } else { e.res.clone() }).unwrap_or("NoLine".into());
+        format!("W={}|R={}|RW={}", hex(line), shown.join(";"), rewritten)
     };
     let o = Obs { obs, verdict: "ok".into(), nontrivial };
     if !bed_writer_accepts(&r) {
@@ -1292,6 +1295,11 @@ fn run_bed(c: &Case, modelled: bool) -> Obs {
     }
     if owned != lazy {
         return o.with_verdict(Err(("bed-lazy-differs-from-owned".into(), format!("lazy={lazy} owned={owned}"))));
+    }
+    // oracle (c18_bed_write_read_write): the copy of the read-back record is the written text again,
+    // typed extra columns and the '.' name included
+    if problems.is_empty() && rewritten != hex(line) {
+        return o.with_verdict(Err(("bed-rewrite-changes-text".into(), format!("written={} rewritten={rewritten}", hex(line)))));
     }
     if problems.is_empty() {
         o
